@@ -1512,6 +1512,19 @@ class Frame:
             self.I.events.append(Event("store_content", [out, res], {}, st.guards, node))
             return res
         # builtins with abstract semantics
+        if dotted in ("np.zeros", "numpy.zeros", "np.ones", "numpy.ones") and isinstance(node, ast.Call) and len(node.args) >= 1 and isinstance(node.args[0], ast.Call) and isinstance(node.args[0].func, ast.Name) and node.args[0].func.id == "len" and len(node.args[0].args) == 1:
+            # np.zeros(len(xs)) for a list built here: one zero per element that is present
+            src = self.eval(node.args[0].args[0], st)
+            if isinstance(src, AList):
+                c = Poly.const(0 if dotted.endswith("zeros") else 1)
+                items = []
+                for x in src.items:
+                    if _maybe_absent(x):
+                        gp, _ = split_presence(x)
+                        items.append(make_cond([(gp, c), (TRUE, Poly.atom(("absent",)))]))
+                    else:
+                        items.append(c)
+                return AList(items, list(src.doms))
         if dotted == "dict" and len(args) == 1 and not kwargs and isinstance(args[0], Poly):
             za = args[0].as_atom()
             if za is not None and za[0] == "call" and za[1] == "zip" and len(za[2]) == 2 and not za[3]:
